@@ -146,11 +146,88 @@ fn inner_case(k: u64) -> (String, String, String, usize) {
     let new = format!("{HELPERS}{}{dsp}", chain_defs(depth, INNER_EDITS[ed].0));
     (old, new, format!("chain of {depth} stateful calls; innermost function edited: {}; other voices {} / {}", INNER_EDITS[ed].1, VOICES[v1].0, if third == 0 { "0.0" } else { "cnt(1.0)" }), depth)
 }
+// ---- batch edits: one swap whose edit removes two sites before an untouched one and inserts two after it ------------
+// old dsp = (a, b, X), new dsp = (X, c, d) - and the mirror image (X, a, b) -> (c, d, X): the untouched site X moves by
+// two positions among its siblings although the number of siblings stays the same. X's channel must continue.
+/// voices around X (indices into VOICES): none, a counter, a mem, a short delay
+const BATCH_OTHERS: [usize; 4] = [0, 1, 3, 4];
+fn n_batch() -> u64 {
+    // X over the 8 stateful voices x a, b, c, d x 2 directions
+    8 * 4u64.pow(4) * 2
+}
+fn batch_case(k: u64) -> ([usize; M], [usize; M], usize, usize, bool) {
+    let mut i = k as usize;
+    let mirror = i % 2 == 1;
+    i /= 2;
+    let mut o = [0usize; 4];
+    for slot in o.iter_mut() {
+        *slot = BATCH_OTHERS[i % 4];
+        i /= 4;
+    }
+    let x = 1 + i % 8;
+    // (old voices, new voices, X's old channel, X's new channel)
+    if mirror { ([x, o[0], o[1]], [o[2], o[3], x], 0, 2, true) } else { ([o[0], o[1], x], [x, o[2], o[3]], 2, 0, false) }
+}
 fn main_cases() -> u64 {
     NV.pow(M as u32) * M as u64 * n_edits()
 }
 
 impl C07 {
+    fn run_batch(&self, tier: Tier, idx: u64) -> CaseOut {
+        let k = idx - main_cases() - n_inner();
+        let (ov, nv, xo, xn, mirror) = batch_case(k);
+        let xshape = VOICES[ov[xo]].1;
+        // only shape-unambiguous edits are judged: no other site, old or new, has X's state shape
+        let ambiguous = (0..M).any(|c| (c != xo && VOICES[ov[c]].1 == xshape) || (c != xn && VOICES[nv[c]].1 == xshape))
+            // (a counter and a wrapped / nested counter share the cell kind the diff pairs by)
+            || (["cnt", "wrapcnt", "nest"].contains(&xshape) && (0..M).any(|c| (c != xo && ["cnt", "wrapcnt", "nest"].contains(&VOICES[ov[c]].1)) || (c != xn && ["cnt", "wrapcnt", "nest"].contains(&VOICES[nv[c]].1))));
+        // if a removed site and an inserted one have the same state shape, the diff may pair those two instead - X is then
+        // not "in the same relative order among its siblings", and the statement does not say it survives
+        let removed: Vec<&str> = (0..M).filter(|&c| c != xo).map(|c| VOICES[ov[c]].1).filter(|s| *s != "none").collect();
+        let reordered = (0..M).any(|c| c != xn && removed.contains(&VOICES[nv[c]].1));
+        if ambiguous || reordered {
+            return CaseOut { key: idx, nontrivial: false, outcome: "ambiguous_pairing_not_judged".into(), ..Default::default() };
+        }
+        let (old_src, new_src) = (program(&ov), program(&nv));
+        let what = format!("batch edit ({}, {}, {}) -> ({}, {}, {}): untouched site `{}` moves from channel {xo} to channel {xn}", VOICES[ov[0]].0, VOICES[ov[1]].0, VOICES[ov[2]].0, VOICES[nv[0]].0, VOICES[nv[1]].0, VOICES[nv[2]].0, VOICES[ov[xo]].0);
+        let (t, _, cfgs) = params(tier);
+        let swap_times: Vec<usize> = if tier == Tier::Thorough { vec![0, 1, 3, 6, 9] } else { vec![3] };
+        let mut fails: Vec<Fail> = vec![];
+        let mut traces = 0u64;
+        for (b, mode) in cfgs {
+            if b == Backend::Wasm && !(tier == Tier::Thorough || k % 23 == 0) {
+                continue;
+            }
+            let Ok(old_full) = run_plain(b, &old_src, 0, t, 0) else { continue };
+            for &n in &swap_times {
+                traces += 1;
+                let label = format!("{} {what}, swapped after {n} steps", bname(b, mode));
+                match run_edit(b, mode, &old_src, &new_src, n, t, 0) {
+                    Ok((tr, Ok(true))) => {
+                        // X's samples: channel xo before the swap, channel xn after it = the uninterrupted channel xo
+                        let got: Vec<f64> = tr.out.iter().enumerate().map(|(s, o)| o.get(if s < n { xo } else { xn }).copied().unwrap_or(f64::NAN)).collect();
+                        let exp = chan(&old_full, xo);
+                        if !same(&got, &exp) {
+                            fails.push(Fail { clause: format!("{}_untouched_voice_lost_state", bname(b, mode)), detail: format!("{label}: got {got:?} expected {exp:?}") });
+                        }
+                    }
+                    Ok((_, other)) => fails.push(Fail { clause: format!("{}_swap_refused", bname(b, mode)), detail: format!("{label}: {other:?}") }),
+                    Err(m) => fails.push(Fail { clause: format!("{}_swap_or_step_crashed", bname(b, mode)), detail: format!("{label}: {m}") }),
+                }
+            }
+        }
+        fails.sort_by(|a, b| a.clause.cmp(&b.clause));
+        fails.dedup_by(|a, b| a.clause == b.clause);
+        CaseOut {
+            key: idx,
+            nontrivial: traces > 0,
+            outcome: if fails.is_empty() { "preserved".into() } else { "failed".into() },
+            fails,
+            tags: vec!["edit_batch".into(), if mirror { "batch_moves_site_to_the_end".into() } else { "batch_moves_site_to_the_front".into() }],
+            repr: json!({"what": what, "old_source": old_src, "new_source": new_src}),
+            counters: vec![("transitions".into(), traces * (t as u64 + 1)), ("traces".into(), traces), ("edit_batch".into(), 1)],
+        }
+    }
     fn run_inner(&self, tier: Tier, idx: u64) -> CaseOut {
         let (old_src, new_src, what, depth) = inner_case(idx - main_cases());
         let (t, swap_times, cfgs) = params(tier);
@@ -209,7 +286,7 @@ impl Prop for C07 {
         "C07"
     }
     fn n_cases(&self, _tier: Tier) -> u64 {
-        main_cases() + n_inner()
+        main_cases() + n_inner() + n_batch()
     }
     fn chunk(&self, _t: Tier) -> u64 {
         50
@@ -221,6 +298,9 @@ impl Prop for C07 {
         120_000
     }
     fn run_case(&self, tier: Tier, idx: u64) -> CaseOut {
+        if idx >= main_cases() + n_inner() {
+            return self.run_batch(tier, idx);
+        }
         if idx >= main_cases() {
             return self.run_inner(tier, idx);
         }
@@ -459,6 +539,10 @@ impl Prop for C07 {
         }
     }
     fn describe_case(&self, _tier: Tier, idx: u64) -> (Value, Vec<String>) {
+        if idx >= main_cases() + n_inner() {
+            let (ov, nv, xo, xn, _) = batch_case(idx - main_cases() - n_inner());
+            return (json!({"old": [VOICES[ov[0]].0, VOICES[ov[1]].0, VOICES[ov[2]].0], "new": [VOICES[nv[0]].0, VOICES[nv[1]].0, VOICES[nv[2]].0], "moved_from_channel": xo, "to_channel": xn}), vec!["edit_batch".into()]);
+        }
         if idx >= main_cases() {
             let (o, n, w, _) = inner_case(idx - main_cases());
             return (json!({"what": w, "old_source": o, "new_source": n}), vec!["edit_inner".into()]);
